@@ -14,7 +14,7 @@ import re
 import threading
 
 import glom
-from glom import Coalesce, Fill, Invoke, Iter, S, Spec, T, Fold
+from glom import A as GA, Coalesce, Fill, Invoke, Iter, S, Spec, T, Fold, Vars
 from glom.core import MODE, ROOT, Path, TargetRegistry, _DEFAULT_SCOPE
 from glom.grouping import Group, ACC_TREE
 
@@ -53,6 +53,10 @@ def itrev(o):
     return iter(list(vars(o).values())[::-1])
 
 
+def keysa(o):
+    return [k for k in vars(o) if k == 'a']
+
+
 def kwfn(**kw):
     """the function of the model's Invoke node"""
     return dict(kw)
@@ -60,7 +64,7 @@ def kwfn(**kw):
 
 # every registration names exactly one op; the ...x ones are exact=True
 REGS = {'Aget1': dict(get=h1), 'Aget2': dict(get=h2), 'Aiter': dict(iterate=itvals),
-        'Aget3x': dict(get=h3, exact=True), 'Aiterx': dict(iterate=itrev, exact=True)}
+        'Aget3x': dict(get=h3, exact=True), 'Aiterx': dict(iterate=itrev, exact=True), 'Akeys': dict(keys=keysa)}
 HANDLER_NAMES = {}
 
 
@@ -69,7 +73,7 @@ def handler_name(h):
     from glom.core import _get_sequence_item, _ObjStyleKeys
     table = {id(operator.getitem): 'getitem', id(_get_sequence_item): 'seqitem', id(getattr): 'getattr',
              id(h1): 'h1', id(h2): 'h2', id(h3): 'h3', id(itvals): 'itvals', id(itrev): 'itrev', id(iter): 'iter',
-             id(dict.keys): 'dictkeys', id(_ObjStyleKeys.get_keys): 'objkeys'}
+             id(dict.keys): 'dictkeys', id(keysa): 'keysa', id(_ObjStyleKeys.get_keys): 'objkeys'}
     if h is False:
         return 'NONE'
     return table.get(id(h), 'other:' + getattr(h, '__name__', repr(h)))
@@ -143,6 +147,8 @@ class Ctx:
     def do_glom(self, bc):
         if bc.via == 'glommer':
             return self.glommer.glom(bc.target, bc.spec)
+        if bc.via == 'spec':           # through the ONE Spec object of this sid
+            return bc.specobj.glom(bc.target, scope=bc.scope)
         return glom.glom(bc.target, bc.spec, scope=bc.scope)
 
     def start_call(self):
@@ -201,6 +207,18 @@ class Probe:
         return 'Probe(%s,%r)' % ('.'.join(map(str, self.at)), self.f)
 
 
+class RProbe(Probe):
+    """a probe whose __repr__ is a yield point while an error trace is being rendered (once per
+    rendering: run_call arms the gate right before str(exc))"""
+
+    def __repr__(self):
+        loc = self.ctx.local
+        if getattr(loc, 'render_gate', False):
+            loc.render_gate = False
+            self.ctx.gate()
+        return 'RProbe(%s)' % '.'.join(map(str, self.at))
+
+
 class NestProbe(Probe):
     """custom spec whose user code calls glom() re-entrantly"""
 
@@ -236,8 +254,8 @@ class OpGate:
 
 
 class BuiltCall:
-    def __init__(self, target, spec, scope, ast):
-        self.target, self.spec, self.scope, self.ast = target, spec, scope, ast
+    def __init__(self, target, spec, scope, ast, specobj=None):
+        self.target, self.spec, self.scope, self.ast, self.specobj = target, spec, scope, ast, specobj
         self.via = ast.get('via', 'glom')
         if self.via == 'glommer' and scope:
             raise ValueError('calls through the Glommer take no caller scope')
@@ -250,13 +268,17 @@ class Builder:
     def __init__(self, ctx, text_factory=None):
         self.ctx = ctx
         self.specs = {}
+        self.specobjs = {}
         self.text_factory = text_factory or (lambda text, at: text)
 
     def call(self, c):
         sid = c['sid']
         if sid not in self.specs:
             self.specs[sid] = self.spec(c['spec'], ())
-        return BuiltCall(build_value(c['t']), self.specs[sid], {k: build_value(v) for k, v in c['sc']}, c)
+        if c.get('via') == 'spec' and sid not in self.specobjs:
+            self.specobjs[sid] = Spec(self.specs[sid])
+        return BuiltCall(build_value(c['t']), self.specs[sid], {k: build_value(v) for k, v in c['sc']}, c,
+                         self.specobjs.get(sid) if c.get('via') == 'spec' else None)
 
     def spec(self, n, at):
         op = n['op']
@@ -265,11 +287,16 @@ class Builder:
                 raise ValueError('segs do not match text: %r' % (n,))
             return self.text_factory(n['text'], at)
         if op == 'probe':
-            return Probe(self.ctx, at, n['f'])
+            return RProbe(self.ctx, at, n['f']) if n.get('r') else Probe(self.ctx, at, n['f'])
         if op == 'nest':
             return NestProbe(self.ctx, at, self.call(n['call']))
         if op == 'tuple':
             return tuple(self.spec(c, at + (i,)) for i, c in enumerate(n['c'], 1))
+        if op == 'dict' and n.get('sp') == 'invoke':     # one Invoke object, one .specs() step per item
+            inv = Invoke(kwfn)
+            for i, (k, c) in enumerate(n['items'], 1):
+                inv = inv.specs(**{k: self.spec(c, at + (i,))})
+            return inv
         if op == 'dict':
             return {k: self.spec(c, at + (i,)) for i, (k, c) in enumerate(n['items'], 1)}
         if op == 'each':
@@ -284,6 +311,8 @@ class Builder:
             return Coalesce(*subs)
         if op == 'arglist':        # a list ARGUMENT (argument mode rebuilds it and evaluates the sub-specs)
             return [self.spec(c, at + (i,)) for i, c in enumerate(n['c'], 1)]
+        if op == 'lastvar':        # a scope variable object: bound, assigned into per item, read
+            return (S(v=Vars({'n': n['init']})), [GA.v.n], S.v.n)
         if op == 'invoke':         # star-kwargs first, then constants
             return Invoke(kwfn).star(kwargs=self.spec(n['c'], at + (1,))).constants(**{n['k']: build_value(n['v'])})
         if op == 'acc':
@@ -314,9 +343,12 @@ def run_call(ctx, bc):
         res = ctx.do_glom(bc)
     except Exception as e:          # noqa: the class is the observation
         try:
+            ctx.local.render_gate = True      # rendering the trace: a yielding __repr__ may park once
             text = scrub(str(e))
         except Exception as e2:     # pragma: no cover
             text = '<str failed: %r>' % (e2,)
+        finally:
+            ctx.local.render_gate = False
         return {'ok': False, 'v': {'k': 'none'}, 'cls': codec.exc_class_name(e), 'obs': ctx.obs()}, text
     return {'ok': True, 'v': project_value(res), 'cls': '', 'obs': ctx.obs()}, ''
 
@@ -369,7 +401,7 @@ def snap_call(bc):
         rp = repr(bc.spec)
     except Exception as e:   # pragma: no cover
         rp = 'repr failed %r' % (e,)
-    return dict(target=snapshot(bc.target), spec=snapshot(bc.spec), spec_repr=scrub(rp), scope=snapshot(bc.scope))
+    return dict(target=snapshot(bc.target), spec=(snapshot(bc.spec), snapshot(bc.specobj)), spec_repr=scrub(rp), scope=snapshot(bc.scope))
 
 
 def snap_diff(a, b):
@@ -427,7 +459,11 @@ class PathLogDict(dict):
 
     def __getitem__(self, k):
         with self._log.lock:
-            v = dict.__getitem__(self, k)
+            try:
+                v = dict.__getitem__(self, k)
+            except KeyError:        # a failed fetch is a membership test that said "absent"
+                self._log.add({'e': 'has', 'star': self._star, 'text': str(k), 'res': False})
+                raise
             self._log.add({'e': 'get', 'star': self._star, 'text': str(k), 'parse': path_ops(v)})
             return v
 
@@ -452,7 +488,11 @@ class TypeLogDict(dict):
 
     def __getitem__(self, k):
         with self._log.lock:
-            v = dict.__getitem__(self, k)
+            try:
+                v = dict.__getitem__(self, k)
+            except KeyError:
+                self._log.add({'e': 'thas', 'ty': type_name(k[0]), 'op': k[1], 'res': False})
+                raise
             self._log.add({'e': 'tget', 'ty': type_name(k[0]), 'op': k[1], 'h': handler_name(v)})
             return v
 
